@@ -33,8 +33,9 @@ type Probe struct {
 	answers      map[[2]int]string
 	AnswerDiff   string
 	// snapshots (C07)
-	Snap  bool
-	snaps []snap
+	Snap    bool
+	snaps   []snap
+	cpSnaps []cpSnap
 	// failure log (C06)
 	LogFails   bool
 	termFails  []failRec
@@ -49,6 +50,14 @@ type Probe struct {
 	// independently of the library's Reader.Remaining
 	InLen int
 	Base  int // base position of the parsed file (default 1)
+}
+
+// cpSnap: a set of curtailed parsers as it read when a parser returned it.
+type cpSnap struct {
+	set  data.IntSet
+	repr string
+	who  string
+	pos  int
 }
 
 type snap struct {
@@ -170,6 +179,11 @@ func Build(g *Grammar, o BuildOpts) *Built {
 			if n != nil && probe.Snap {
 				sh, en := shapeAndEnds(n, 1)
 				probe.snaps = append(probe.snaps, snap{n, RenderResult(n, 1), who, inTrim, sh, en})
+			}
+			if probe.Snap && cp.Len() > 0 && len(probe.cpSnaps) < 4000 {
+				// the set of curtailed parsers is part of the answer (a memoized parser stores it and
+				// hands it out again): a set value, once returned, reads the same for ever
+				probe.cpSnaps = append(probe.cpSnaps, cpSnap{cp, fmt.Sprint(setElems(cp)), who, int(pos)})
 			}
 			return n, cp, err
 		})
@@ -547,7 +561,31 @@ func newFileOwned(name string, data []byte) *text.File {
 }
 
 func NewCtxAt(input string, preLen int) (*parsley.Context, *text.File, int) {
-	f := newFileOwned("f", []byte(input))
+	return NewCtxAtNamed("f", input, preLen)
+}
+
+// fileNameKind: names a caller may give a file; a location names the file exactly like that
+// (an unnamed file is left out of the location).
+func fileNameKind(k int) string {
+	switch k {
+	case 1:
+		return ""
+	case 2:
+		return "./f"
+	case 3:
+		return "d/../f"
+	case 4:
+		return "d//f"
+	case 5:
+		return "f/"
+	case 6:
+		return "."
+	}
+	return "f"
+}
+
+func NewCtxAtNamed(name string, input string, preLen int) (*parsley.Context, *text.File, int) {
+	f := newFileOwned(name, []byte(input))
 	if preLen <= 0 {
 		return parsley.NewContext(parsley.NewFileSet(f), text.NewReader(f)), f, 1
 	}
